@@ -202,13 +202,15 @@ struct C11World: World {
       for (size_t off = 0; off < pre; off++) {
         if (only_n >= 0 && static_cast<size_t>(only_n) != off) continue;
         const uint8_t b = img[off];
-        const uint8_t vals[8] = { 0x00, 0xFF, 0x7F, 0x80, static_cast<uint8_t>(b ^ 1), static_cast<uint8_t>(b ^ 0x80), static_cast<uint8_t>(b + 1), static_cast<uint8_t>(b - 1) };
-        for (int vi = 0; vi < 8; vi++) {
+        // every single-bit flip (a count or size field moves by a power of two), the extremes, and the neighbours
+        const uint8_t vals[14] = { 0x00, 0xFF, 0x7F, 0x80, static_cast<uint8_t>(b ^ 1), static_cast<uint8_t>(b ^ 0x80), static_cast<uint8_t>(b + 1), static_cast<uint8_t>(b - 1),
+                                   static_cast<uint8_t>(b ^ 2), static_cast<uint8_t>(b ^ 4), static_cast<uint8_t>(b ^ 8), static_cast<uint8_t>(b ^ 16), static_cast<uint8_t>(b ^ 32), static_cast<uint8_t>(b ^ 64) };
+        for (int vi = 0; vi < 14; vi++) {
           if (vals[vi] == b) continue;
           if (only_val >= 0 && only_val != vi) continue;
           bool dup = false; for (int j = 0; j < vi; j++) if (vals[j] == vals[vi]) dup = true;
           if (dup) continue;
-          ctx.begin_step(static_cast<int>(off * 8 + static_cast<size_t>(vi)), kind);
+          ctx.begin_step(static_cast<int>(off * 16 + static_cast<size_t>(vi)), kind);
           Bytes bad = img; bad[off] = vals[vi];
           alloc_state().budget = budget; alloc_state().refused = 0; alloc_state().refused_max = 0;
           AllocMark mark; const size_t items_before = item_state().live.size();
